@@ -56,7 +56,8 @@ COMPONENTS = {
 EXPECTED_PROBES = ["kind_sched", "kind_clients", "kind_numba", "two_clients_inside_build_sindex",
                    "pickle_of_indexed_object", "cold_cache_first_access_concurrent",
                    "two_concurrent_pack_to_parquet_calls", "fine_mode_schedule",
-                   "concurrent_sjoin_of_shared_frames", "numba_very_long_ring",
+                   "concurrent_sjoin_of_shared_frames", "concurrent_set_geometry_on_shared_frame",
+                   "numba_very_long_ring",
                    "numba_sweep_effective"]
 
 ENV = {"NUMBA_NUM_THREADS": "16"}      # the sweep needs up to 16 numba threads
@@ -100,6 +101,9 @@ def cases(tier, base_seed):
             # a third of the cases: every client calls the SAME operation (with its own box) -
             # many threads hammering one method is the usual way such objects are shared
             menu = _client_ops(obj)
+            second = obj == "frame" and rng.random() < 0.4
+            if second:
+                menu = menu + ("set_geometry_other", "set_geometry_other", "cx")
             if obj in ("frame", "dask") and kind == "point":
                 # spatial joins of the SHARED frame(s) with a shared right frame
                 menu = menu + ("sjoin_inner", "sjoin_left", "sjoin_inner")
@@ -112,7 +116,7 @@ def cases(tier, base_seed):
                 if not any(o[0]["op"] == "pack_parquet" for o in ops):
                     ops[0][0]["op"] = "pack_parquet"
             yield {"seed": seed, "kind": "clients", "object": obj, "frame": frame,
-                   "right": _right(rng), "clients": ops, "page_size": rng.choice((1, 2, 3, 8, 512)),
+                   "right": _right(rng), "second_geometry": second, "clients": ops, "page_size": rng.choice((1, 2, 3, 8, 512)),
                    "npartitions": rng.choice((2, 3, 5)), "store": e1.gen_store_cfg(rng),
                    "parts": {"mode": "even", "k": rng.randint(1, min(4, n))},
                    "line_p": rng.choice((0.05, 0.2, 0.5)),
@@ -305,6 +309,15 @@ def _build_object(case, cold=True):
     if obj == "rtree":
         return HilbertRtree(arr.bounds, page_size=case["page_size"])
     if obj == "frame":
+        if case.get("second_geometry"):
+            # a second geometry column (the first vertex of every element, as points)
+            from spatialpandas.geometry import PointArray
+            pts = []
+            for v in models.array_values(arr):
+                flat = [c for c in models.coords(models.kind_of(arr), v)] if v is not None else []
+                pts.append([float(flat[0][0]), float(flat[0][1])] if flat else None)
+            gdf = gdf.copy()
+            gdf["g2"] = PointArray(pts)
         return gdf
     return e1.make_ddf(gdf, case["parts"])
 
@@ -356,6 +369,9 @@ def _client_op(obj_kind, obj, op, box, right=None):
             o2 = pickle.loads(pickle.dumps(obj))
             return [models.freeze(v) for v in models.array_values(o2)]
     if obj_kind == "frame":
+        if op == "set_geometry_other":
+            # a derived frame with the OTHER column active; the shared frame stays as it is
+            return e2.recs(obj.set_geometry("g2").cx[x0:x1, y0:y1])
         if op == "cx":
             return e2.recs(obj.cx[x0:x1, y0:y1])
         if op == "intersects_bounds":
@@ -573,6 +589,8 @@ def _run_clients(case):
     allops = {o["op"] for ops in case["clients"] for o in ops}
     if any(op.startswith("sjoin_") for op in allops):
         probes["concurrent_sjoin_of_shared_frames"] = 1
+    if "set_geometry_other" in allops:
+        probes["concurrent_set_geometry_on_shared_frame"] = 1
     if "pickle" in allops:
         probes["pickle_of_indexed_object"] = 1
     if inside.get("seen_build", 0) > 0 and len(case["clients"]) > 1:
